@@ -213,7 +213,7 @@ def run_shape(chk, ns, nq, np_, nv, n_sym_T, acoustic_zero=True):
                     s = Sym.of(res[k][idx])
                     if has_undef(s):
                         continue
-                    worst = max(worst, PC.rel_diff(float(arr[idx]), s.evalf(dict(point)), floor=1e-300))
+                    worst = max(worst, PC.rel_diff(float(arr[idx]), s.evalf(dict(point)), floor=1e-6 * float(numpy.abs(numpy.nan_to_num(arr)).max()) + 1e-300))
             chk.validation_points += 1
             if worst > 1e-7:
                 chk.harness_error("symbolic result does not reproduce the real float run (rel %.3g) at %s" % (worst, tag))
